@@ -67,7 +67,10 @@ def compute_rise_offsets(cursor, reference_zeta_mm):
         # Epoch associated with rainfall intensities are *start*
         # epoch for the interval, so the time slice that *starts*
         # at the storm thru_epoch is not included.
-        rain_stop = np.argwhere(epoch == storm_thru_epoch)[0, 0]
+        # (No water level is recorded at the thru_epoch of a storm that
+        # lasts through the final time step of a data interval, so
+        # look up the position of the epoch instead of an exact match.)
+        rain_stop = np.searchsorted(epoch, storm_thru_epoch)
         zeta_start = np.argwhere(epoch == zeta_start_epoch)[0, 0]
         zeta_thru = np.argwhere(epoch == zeta_thru_epoch)[0, 0]
         cursor.execute(
